@@ -590,6 +590,6 @@ fn main() {
     s.run_enum(&Exhaustive, exhaustive_cases(max_events), true);
     s.run(&Random);
     // coverage-guided search over the same strategy and oracle (libFuzzer drives the random stream): thorough tier
-    s.fuzz_campaign(&Random, "libfuzzer:random", "pbt_c09", 3_000, 8, 8192);
+    s.fuzz_campaign(&Random, "libfuzzer:random", "pbt_c09", 6_000, 8, 8192);
     std::process::exit(s.finish());
 }
